@@ -32,6 +32,9 @@ type c07cfg struct {
 	// operator 300ms after the first one started (its drain, with twice the drain timeout, overlaps the first one's)
 	overlap bool
 	deep    bool // explored with <=2 deviations in the quick tier too
+	// slowDeploy: redeployed targets turn healthy only at their second probe, so that (with overlap) the second
+	// command lands while the deploy is still waiting for them
+	slowDeploy bool
 }
 
 func (c c07cfg) String() string {
@@ -105,6 +108,10 @@ func c07Configs(tier string) []c07cfg {
 			cfgs = append(cfgs, c07cfg{seq: s, gap: 0, clients: sets[0], deep: true})
 		}
 	}
+	// a pause / stop by another operator while a redeploy is still waiting for its targets
+	for _, s := range []string{"DPR", "DSR"} {
+		cfgs = append(cfgs, c07cfg{seq: s, gap: 100 * time.Millisecond, clients: []c07client{{"get", 600 * time.Millisecond}, {"get", 1500 * time.Millisecond}, {"health-get", 1500 * time.Millisecond}}, overlap: true, slowDeploy: true})
+	}
 	// two drains of the same targets overlapping
 	ov := []string{"PpR", "PSR", "SpR"}
 	if tier != "quick" {
@@ -132,7 +139,11 @@ func c07Scenario(c c07cfg) *Scenario {
 		cmdList = nil
 		w.AddTarget("t0:80")
 		for i := range c.seq {
-			w.AddTarget(fmt.Sprintf("t%d:80", i+1))
+			if c.slowDeploy {
+				w.AddTarget(fmt.Sprintf("t%d:80", i+1), p500(), pOK())
+			} else {
+				w.AddTarget(fmt.Sprintf("t%d:80", i+1))
+			}
 		}
 		if r := w.Deploy(deployArgs("s1", []string{"t0:80"}, []string{host}, nil)); r.Err != nil {
 			w.Note("setup: %v", r.Err)
@@ -244,9 +255,22 @@ func c07Scenario(c c07cfg) *Scenario {
 				return vs
 			}
 		}
-		// gate model
-		states := []gateState{{kind: "running", targets: "t0:80"}}
+		// gate model: the gate commands (pause, resume, stop) in their own order, the redeploys separately: the two
+		// are independent dimensions (commands of the two kinds may overlap when issued by different operators)
+		states := []gateState{{kind: "running"}}
+		var gcmds []*CmdObs // gate commands, gcmds[k-1] leads to states[k]
+		var dcmds []*CmdObs // redeploys
+		dTargets := []string{"t0:80"}
 		for i, ch := range c.seq {
+			if cmdList[i].Err != nil {
+				vs = append(vs, Violation{"C07", "command-failed", fmt.Sprintf("%s: %v", cmdList[i].Name, cmdList[i].Err)})
+				return vs
+			}
+			if ch == 'D' {
+				dcmds = append(dcmds, cmdList[i])
+				dTargets = append(dTargets, fmt.Sprintf("t%d:80", i+1))
+				continue
+			}
 			g := states[len(states)-1]
 			switch ch {
 			case 'P':
@@ -257,13 +281,8 @@ func c07Scenario(c c07cfg) *Scenario {
 				g.kind, g.msg = "running", ""
 			case 'S':
 				g.kind, g.msg = "stopped", fmt.Sprintf("msg-%d <b>", i)
-			case 'D':
-				g.targets = fmt.Sprintf("t%d:80", i+1)
 			}
-			if cmdList[i].Err != nil {
-				vs = append(vs, Violation{"C07", "command-failed", fmt.Sprintf("%s: %v", cmdList[i].Name, cmdList[i].Err)})
-				return vs
-			}
+			gcmds = append(gcmds, cmdList[i])
 			states = append(states, g)
 		}
 		stalled := w.HadStall()
@@ -276,13 +295,26 @@ func c07Scenario(c c07cfg) *Scenario {
 				vs = append(vs, Violation{"C07", "request-never-answered", r.ID})
 				continue
 			}
+			stalledNow := w.HadStall()
 			jmin, jmax := 0, 0
-			for _, cm := range cmdList {
-				if cm.EndSeq < r.StartSeq {
+			for _, cm := range gcmds {
+				// a gate command takes effect when it starts (the drain follows): without stalls a request arriving at a
+				// later virtual instant cannot have seen the earlier state
+				if cm.EndSeq < r.StartSeq || (!stalledNow && cm.Start < r.Start) {
 					jmin++
 				}
 				if cm.StartSeq < r.EndSeq {
 					jmax++
+				}
+			}
+			// target sets in force at some point of the request's life
+			dmin, dmax := 0, 0
+			for _, cm := range dcmds {
+				if cm.EndSeq < r.StartSeq {
+					dmin++
+				}
+				if cm.StartSeq < r.EndSeq {
+					dmax++
 				}
 			}
 			isHealthGet := r.Spec.Path == vHealthPath && (r.Spec.Method == "" || r.Spec.Method == "GET")
@@ -304,10 +336,25 @@ func c07Scenario(c c07cfg) *Scenario {
 			case r.Status == 504:
 				obs = "504"
 			}
+			// forwardedFrom(x): the request proceeds under gate state x (x = 0: the state it arrived in; otherwise the state
+			// gate command x established, e.g. the resume that released it): it goes to a target set in force between
+			// that moment and its end
 			forwardedFrom := func(x int) map[string]bool {
 				res := map[string]bool{}
-				for y := x; y <= jmax; y++ {
-					res["forwarded:"+states[y].targets] = true
+				lo := dmin
+				if x >= 1 && x-1 < len(gcmds) {
+					dlo := 0
+					for _, cm := range dcmds {
+						if cm.EndSeq < gcmds[x-1].StartSeq {
+							dlo++
+						}
+					}
+					if dlo > lo {
+						lo = dlo
+					}
+				}
+				for y := lo; y <= dmax; y++ {
+					res["forwarded:"+dTargets[y]] = true
 				}
 				return res
 			}
@@ -359,7 +406,7 @@ func c07Scenario(c c07cfg) *Scenario {
 						} else {
 							for x := j; x <= jmax && states[x].kind == "paused"; x++ {
 								at := r.Start + states[x].limit
-								released := k >= 0 && k-1 < len(cmdList) && cmdList[k-1].Start < at
+								released := k >= 0 && k-1 < len(gcmds) && gcmds[k-1].Start < at
 								if r.End == at && !released {
 									pred["504"] = true
 								}
@@ -367,14 +414,14 @@ func c07Scenario(c c07cfg) *Scenario {
 						}
 					}
 				}
-				tried = append(tried, fmt.Sprintf("arrival under %s(%v,%q,%s) predicts %v", g.kind, g.limit, g.msg, g.targets, sortedKeys(pred)))
+				tried = append(tried, fmt.Sprintf("arrival under %s(%v,%q) targets %v predicts %v", g.kind, g.limit, g.msg, dTargets[dmin:dmax+1], sortedKeys(pred)))
 				if pred[obs] {
 					explained = true
 					// a released request must be answered when it is released (no stall: virtual time exact)
 					if g.kind == "paused" && !isHealthGet && obs != "504" && !stalled {
 						okTime := false
 						for x := j + 1; x <= jmax; x++ {
-							cm := cmdList[x-1]
+							cm := gcmds[x-1]
 							if r.End >= cm.Start && r.End <= cm.End {
 								okTime = true
 							}
@@ -394,11 +441,11 @@ func c07Scenario(c c07cfg) *Scenario {
 			}
 			// signature
 			sig := "unexplained " + obs
-			anyStop := strings.Contains(c.seq[:jmax], "S")
+			anyStop := strings.Contains(c.seq, "S")
 			switch {
 			case isHealthGet:
 				sig = "health-check-GET answered " + strings.SplitN(obs, ":", 2)[0]
-			case strings.HasPrefix(obs, "forwarded:") && strings.ContainsAny(c.seq[:jmax], "D"):
+			case strings.HasPrefix(obs, "forwarded:") && dmax > 0 && obs != "forwarded:"+dTargets[dmax]:
 				sig = "held-or-passing-request-served-by-replaced-target"
 			case obs == "503-plain":
 				sig = "refused-without-stop-message via " + lastSites(r.Sites, 2)
